@@ -19,6 +19,7 @@ from __future__ import annotations
 import io
 import json
 import logging
+import os
 import random
 from typing import Any, Dict, Iterator, List, Optional, Tuple
 
@@ -31,6 +32,7 @@ S = "antismash/common/secmet/"
 OPAQUE_TYPES = ("gene", "CDS", "CDS_motif", "aSDomain", "PFAM_domain", "aSModule", "source")
 BASE_KEYS = ("note", "tool", "codon_start")
 KF_ORDER = "KF-C10-inconsistent-area-order"
+WORKERS = max(2, min(8, (os.cpu_count() or 4) // 2))
 
 
 def simple(lo: int, hi: int, s: Any = 1) -> Dict[str, Any]:
@@ -460,7 +462,7 @@ class C10(Property):
         out = {"core": core, "loc": loc, "tool": "rule-based-clusters", "product": product,
                "cutoff": rng.choice([0, grid[1], grid[2], 20000]), "nbhd": nb, "rule": f"cds({product} and x)",
                "category": rng.choice(["PKS", "other", "RiPP", ""]), "side": None, "notes": []}
-        if rng.random() < 0.25:
+        if rng.random() < 0.12:
             out["side"] = self._gen_side(rng)
             out["tool"] = rng.choice(["sidetool", "my tool: v2"])
             out["category"] = "other"
@@ -482,7 +484,7 @@ class C10(Property):
             loc = simple(lo, min(n, lo + rng.choice([grid[1], grid[3], grid[6]])), rng.choice([None, 1]))
         out = {"loc": loc, "tool": rng.choice(["cassis", "clusterfinder"]), "label": rng.choice(["", "anchor1", "a label"]),
                "side": None}
-        if rng.random() < 0.3:
+        if rng.random() < 0.15:
             out["side"] = self._gen_side(rng)
             out["tool"] = "sidetool"
         return out
@@ -505,12 +507,28 @@ class C10(Property):
         return out
 
     def cases(self, rng: random.Random, tier: str, deep: bool) -> Iterator[Dict[str, Any]]:
-        count = 9000 if deep else 1300
-        for _ in range(count):
-            yield self.gen_layout(rng, tier)
+        count = 24000 if deep else 3600
+        generated = (self.gen_layout(rng, tier) for _ in range(count))
+        yield from self._precomputed(generated)
         if deep:
-            yield from self.small_scope()
-        self.extra_coverage = {"records_generated": count}
+            yield from self._precomputed(self.small_scope())
+        self.extra_coverage = {"records_generated": count, "worker_processes": WORKERS}
+
+    def _precomputed(self, cases: Iterator[Dict[str, Any]]) -> Iterator[Dict[str, Any]]:
+        """runs the real round trips of a chunk of cases in worker processes (the implementation side is
+        pure per case); `run_impl` then finds the observation in the cache"""
+        import itertools
+        import multiprocessing
+        build_record({"len": 60, "circ": False})          # import antismash before forking
+        ctx = multiprocessing.get_context("fork")
+        with ctx.Pool(WORKERS) as pool:
+            while True:
+                chunk = list(itertools.islice(cases, 480))
+                if not chunk:
+                    break
+                for case, obs in zip(chunk, pool.map(_observe, chunk, chunksize=8)):
+                    self._cache[self.key(case)] = obs
+                yield from chunk
 
     def small_scope(self) -> Iterator[Dict[str, Any]]:
         """record length 60, every 1..3 protoclusters from a 3-value grid incl. equal coordinates, every insertion
@@ -535,7 +553,15 @@ class C10(Property):
         self.exhaustive_done = True
 
     # ------------------------------------------------------------------ implementation adapter
+    _cache: Dict[str, Dict[str, Any]] = {}
+
     def run_impl(self, case: Dict[str, Any]) -> Dict[str, Any]:
+        cached = self._cache.pop(self.key(case), None)
+        if cached is not None:
+            return cached
+        return self.observe(case)
+
+    def observe(self, case: Dict[str, Any]) -> Dict[str, Any]:
         try:
             rec = build_record(case)
         except Exception as exc:  # pylint: disable=broad-except
@@ -602,8 +628,8 @@ class C10(Property):
         detail = "; ".join(problems)
         if bad:
             detail = f"round trip changed the record: {bad} {obs.get('text_diff', '')}; " + detail
-        scope = bool(drv["swo"] and drv["nodup"] and drv["sorted"] and drv["refs_valid"])
-        for key in ("swo", "sorted"):
+        scope = bool(drv["swo"] and drv["nodup"] and drv["scope_wf"])
+        for key in ("swo", "sorted", "scope_wf"):
             if not drv[key]:
                 tags.append("not-" + key)
         if state["protos"]:
@@ -661,6 +687,10 @@ class C10(Property):
             yield dict(case, regions=False)
 
 
+def _observe(case: Dict[str, Any]) -> Dict[str, Any]:
+    return PROP_INSTANCE.observe(case)
+
+
 def _first_diff(a: str, b: str) -> str:
     la, lb = a.splitlines(), b.splitlines()
     for i, (x, y) in enumerate(zip(la, lb)):
@@ -691,3 +721,4 @@ def _state_diff(model: Any, impl: Any, raw: Any) -> str:
 
 
 PROP = C10
+PROP_INSTANCE = C10()
